@@ -37,6 +37,9 @@ function program() {
     ["P11", Ref("VA")],
     ["P12", Ref("DUrec")],
     ["P13", Tup([Ref("Odd"), Ref("DUrec")])],
+    // references that carry their own JSDoc description (metadata of the reference site, not of the type)
+    ["P14", ObjT([{ name: "owner", t: Ref("Plain"), opt: false, doc: "The paying customer" }, { name: "root", t: Ref("RecT"), opt: true, doc: "where it starts" }])],
+    ["P15", ObjT([Prop("reporter", Ref("Plain")), { name: "du", t: Ref("DUnamed"), opt: true, doc: "a described union" }])],
     ["POverride", Ref("Override")],
   ];
   return { decls, parsers };
@@ -214,7 +217,7 @@ export async function run() {
       traces_validated_against_impl: stats.states + stats.configs,
       samples,
       exhaustive: true,
-      explanation: "per configuration (parser set of size " + (TIER === "thorough" ? "2-4" : "2-3") + " out of 13 parsers sharing plain, recursive, mutually recursive, named/anonymous/recursive discriminated types × 3 ref-template/container settings × 3 override settings) BFS over all call sequences, state = canonical (exportDefinitions, in-progress set) read from the real context, reached by replay on a fresh context, run to closure; invariants in every state: nothing in progress, each definition equals the fresh-context definition, returned schema independent of history, all needed definitions present, every $ref resolves, export independent of order/repetition",
+      explanation: "per configuration (parser set of size " + (TIER === "thorough" ? "2-4" : "2-3") + " out of 15 parsers sharing plain, recursive, mutually recursive, named/anonymous/recursive discriminated types × 3 ref-template/container settings × 3 override settings) BFS over all call sequences, state = canonical (exportDefinitions, in-progress set) read from the real context, reached by replay on a fresh context, run to closure; invariants in every state: nothing in progress, each definition equals the fresh-context definition, returned schema independent of history, all needed definitions present, every $ref resolves, export independent of order/repetition",
       configurations: stats.configs,
       configurations_closed: stats.closed,
       depth_max: stats.maxDepth,
